@@ -23,6 +23,7 @@ func init() {
 			{"packet.go", "type fixedHeader struct {", "var frameBuf []byte\n\ntype fixedHeader struct {"}}},
 		{Name: "accessor-leaks-package-storage", Rule: "R14.3", Where: "ProtocolNameBytes", Edits: []Edit{{"connect.go", "func (p *Connect) ProtocolName() string     { return string(p.protocolName) }", "func (p *Connect) ProtocolName() string     { return string(p.protocolName) }\nfunc (p *Connect) ProtocolNameBytes() []byte { return p.protocolName }"}}},
 		{Name: "typenames-exposed", Rule: "R14.3", Where: "TypeNames", Edits: []Edit{{"const.go", "var typeNames = map[byte]string{", "func TypeNames() map[byte]string { return typeNames }\n\nvar typeNames = map[byte]string{"}}},
+		{Name: "decoder-reuses-old-capacity", Rule: "R14.5", Where: "(*rawdata).UnmarshalBinary", Edits: []Edit{{"wiretypes.go", "\t*v = make([]byte, len(data))\n\tcopy(*v, data)\n\treturn nil", "\t*v = append((*v)[:0], data...)\n\treturn nil"}}},
 		{Name: "copy-with-append", Silent: true, Edits: []Edit{{"undefined.go", "\tp.data = make([]byte, len(data))\n\tcopy(p.data, data)\n", "\tp.data = append([]byte(nil), data...)\n"}}},
 	}})
 }
@@ -40,6 +41,7 @@ func checkC14(p *Prog, c *Check) {
 	c.Rule("R14.1", "no decode entry point (UnmarshalBinary of every packet and wire type) stores a value derived from its input slice into receiver-, argument- or package-reachable memory, returns it, or writes through it")
 	c.Rule("R14.2", "package variables are assigned only in init, their storage and the fields that may share it are never written in place (same rule as C13 R13.2)")
 	c.Rule("R14.3", "no exported function or method returns a slice, map or pointer whose provenance is a package variable's storage, nor an uncopied load of a field that may share such storage")
+	c.Rule("R14.5", "no decoder overwrites storage its receiver already held when the call began (which the caller may share with other packets through setters and accessors): every element store, copy destination and re-sliced append base on the decode path is a fresh allocation of that call")
 	c.Rule("R14.4", "on ReadPacket's call tree the buffer handed to UnmarshalBinary is allocated freshly in that call")
 	c.Explanation = "Retention edges (value of provenance X stored into memory of provenance Y) are computed by the provenance analysis of C13, field-sensitively for fresh objects such as the sequential reader; string(b), copy and make produce fresh memory. For every UnmarshalBinary the summary must contain no edge from the data parameter (or anything reachable from it) into non-fresh memory, no result carrying it and no write through it. Shared state between packets can only arise through package-level storage, which R14.2/R14.3 exclude, or through the frame buffer, which R14.4 shows to be per call."
 	c.Trusted = []string{"go/types + go/ssa (x/tools v0.29.0) faithful IR", "stdlib effect table (DESIGN Appendix B)", "copy/append/string-conversion semantics of Go"}
@@ -182,6 +184,105 @@ func checkC14(p *Prog, c *Check) {
 		}
 	}
 	c.Measured["exported_value_returning_functions"] = nexp
+
+	// R14.5
+	p.cache["specctx"] = e
+	p.cache["spectag"] = "dec"
+	nwr := 0
+	for _, fn := range sortedFuncs(scope) {
+		if fn.Name() != "UnmarshalBinary" && !strings.Contains(qname(fn), "UnmarshalBinary") {
+			// only the decoders themselves and the closures they create
+			isDec := false
+			for f := fn; f != nil; f = f.Parent() {
+				if f.Name() == "UnmarshalBinary" {
+					isDec = true
+				}
+			}
+			if !isDec {
+				continue
+			}
+		}
+		pr := NewProver(p, fn)
+		resolve := func(v ssa.Value) ssa.Value {
+			for i := 0; i < 12; i++ {
+				switch x := v.(type) {
+				case *ssa.Slice:
+					v = x.X
+				case *ssa.IndexAddr:
+					v = x.X
+				case *ssa.ChangeType:
+					v = x.X
+				case *ssa.UnOp:
+					if f, ok := pr.fwd[x]; ok {
+						v = f
+						continue
+					}
+					return v
+				default:
+					return v
+				}
+			}
+			return v
+		}
+		isFresh := func(v ssa.Value) bool {
+			switch x := v.(type) {
+			case *ssa.MakeSlice, *ssa.Alloc, *ssa.Convert:
+				return true
+			case *ssa.Call:
+				if bi, ok := x.Call.Value.(*ssa.Builtin); ok && bi.Name() == "append" {
+					return true
+				}
+			case *ssa.Const:
+				return true
+			}
+			return false
+		}
+		nw := 0
+		for _, b := range fn.Blocks {
+			for _, ins := range b.Instrs {
+				var dst ssa.Value
+				kind := ""
+				switch x := ins.(type) {
+				case *ssa.Store:
+					if ia, ok := x.Addr.(*ssa.IndexAddr); ok {
+						if _, isSl := ia.X.Type().Underlying().(*types.Slice); isSl {
+							dst, kind = ia.X, "element store"
+						}
+					}
+				case *ssa.Call:
+					if bi, ok := x.Call.Value.(*ssa.Builtin); ok {
+						switch bi.Name() {
+						case "copy":
+							dst, kind = x.Call.Args[0], "copy destination"
+						case "append":
+							if sl, ok := x.Call.Args[0].(*ssa.Slice); ok && len(x.Call.Args) > 1 {
+								dst, kind = sl, "append onto a re-sliced base"
+							}
+						}
+					}
+				}
+				if dst == nil {
+					continue
+				}
+				nw++
+				nwr++
+				cons := fmt.Sprintf("%s#inplace%d", qname(fn), nw)
+				base := resolve(dst)
+				if isFresh(base) {
+					c.OK("R14.5", cons, posOf(p, ins), kind+" into memory allocated by this call")
+					continue
+				}
+				if prm, ok := base.(*ssa.Parameter); ok && isByteSlice(prm.Type()) {
+					c.Bad("R14.5", cons, posOf(p, ins), kind+" into the decoder's input slice")
+					continue
+				}
+				c.Bad("R14.5", cons, posOf(p, ins), kind+" into storage the receiver held before the call ("+describeVal(base)+"): another packet sharing that slice is modified")
+			}
+		}
+	}
+	delete(p.cache, "specctx")
+	delete(p.cache, "spectag")
+	c.Measured["in_place_writes_in_decoders"] = nwr
 
 	// R14.4
 	rp, msg := p.readPacketAnchor()
